@@ -95,6 +95,9 @@ def dev_abs_roundoff(fam, levels, y, mu, boundary=False):
             e = y
         elif fam == 'gamma':
             e = 1.0 + 0 * y
+        elif fam == 'inv_gauss' and boundary:
+            # scipy forms (x - m) / m from the already rounded x = y / g, m = mu / g: relative error ulp * y / |y - mu|
+            e = np.where(y == mu, 0.0, (np.abs(y) + np.abs(mu)) / np.abs(y - mu) * ((y - mu) ** 2) / (mu ** 2 * y))
         else:
             e = 0 * y
         return 64 * EPS * e
@@ -144,8 +147,10 @@ def harvest_literals(D):
     for src in (inspect.getsource(D), inspect.getsource(U.ylogydu)):
         for node in ast.walk(ast.parse(src)):
             if isinstance(node, ast.Constant) and isinstance(node.value, (int, float)) and not isinstance(node.value, bool):
-                lits.add(float(node.value))
-    return sorted(lits)
+                v = float(node.value)
+                if v == 0 or 1e-12 <= abs(v) <= 1e12:       # the range the generators cover anyway
+                    lits.add(v)
+    return sorted(lits | {0.0, 1.0})
 
 
 def neighbours(v):
@@ -279,7 +284,7 @@ def gen_blocks(ctx, D):
     lits = harvest_literals(D)
     ctx.extra['harvested_literals'] = lits
     quick = ctx.tier == 'quick'
-    n_cases = 220 if quick else 2500
+    n_cases = 1200 if quick else 4000
     boost = dict(binomial=3, poisson=8)      # families without a scale axis get more points per block
     blocks = []
     for fam in FAMS:
@@ -396,7 +401,7 @@ def check_block(ctx, D, b, outs, state):
         o_nonneg = np.where(np.isnan(R['dev_s']), np.inf, o_nonneg)
         o_zero = rel_err(R['dev_yy'], 0.0, 1e-10 * wnum / s_eff * (1 + 0 * y))
         far = np.abs(y - mu) > 1e-3 * np.maximum(np.abs(y), np.abs(mu))
-        o_pos = np.where(far & ~(R['dev_s'] > 0), np.inf, 0.0)
+        o_pos = np.where(far & (mag_s > 1e-250) & ~(R['dev_s'] > 0), np.inf, 0.0)
         fd_ok = fd_eligible(fam, levels, y, mu) & (R['V'] != 0) & np.isfinite(Dd) & (Dd < 1e290)
         fd = (R['dev_p'] - R['dev_m']) / (R['mp'] - R['mm'])
         d_exp = -2 * (y - mu) / (s_eff * R['V'])
@@ -509,7 +514,7 @@ def run_points(ctx, D, blocks=None):
 def gen_phi_cases(ctx, D):
     lits = harvest_literals(D)
     out = []
-    reps = 6 if ctx.tier == 'quick' else 60
+    reps = 12 if ctx.tier == 'quick' else 60
     for fam in FAMS:
         rng = ctx.subrng('phi', fam)
         for levels in ([1, 2, 5] if fam == 'binomial' else [1]):
@@ -623,7 +628,7 @@ def doc_moments(name, a):
 def gen_sampler_cases(ctx, D):
     lits = harvest_literals(D)
     out = []
-    m = 12 if ctx.tier == 'quick' else 120
+    m = 40 if ctx.tier == 'quick' else 200
     for fam in FAMS:
         rng = ctx.subrng('sampler', fam)
         scales = (gen_scales(rng, fam, lits, 4) + [None]) if fam in FREE_SCALE else [1.0]
@@ -746,7 +751,7 @@ def kurtosis(fam, levels, scale, mu):
 
 def gen_draw_cases(ctx):
     out = []
-    reps = 2 if ctx.tier == 'quick' else 10
+    reps = 3 if ctx.tier == 'quick' else 20
     for fam in FAMS:
         rng = ctx.subrng('draws', fam)
         for levels in ([1, 5] if fam == 'binomial' else [1]):
